@@ -86,6 +86,55 @@ def replay_case(args):
     return out
 
 
+def replay_cutout(c):
+    """Cutout.tla case -> CutoutImage in the three modes (index-valued image shows which pixels were selected)"""
+    from astropy.nddata.utils import NoOverlapError, PartialOverlapError
+    from photutils.utils import CutoutImage
+    warnings.simplefilter('ignore')
+    h, w = c['h'], c['w']
+    img = np.arange(h * w, dtype=float).reshape(h, w) + 1.0
+    pos = (c['py'] / 4.0, c['px'] / 4.0)
+    shape = (c['sy'], c['sx'])
+    out = []
+    y0, y1, x0, x1 = c['large']
+    s0, s1, t0, t1 = c['small']
+    for mode in ('trim', 'partial', 'strict'):
+        sig = {'what': 'CutoutImage', 'mode': mode, 'nooverlap': c['nooverlap'], 'inside': c['inside']}
+        try:
+            cut = CutoutImage(img, pos, shape, mode=mode, fill_value=-1.0)
+            raised = None
+        except NoOverlapError:
+            raised = 'nooverlap'
+        except PartialOverlapError:
+            raised = 'partial'
+        except Exception as e:  # noqa
+            out.append(('cutout_raises_unexpectedly', sig, {'case': c, 'exc': repr(e)})); continue
+        if c['nooverlap']:
+            if raised != 'nooverlap':
+                out.append(('no_overlap_raises_in_every_mode', sig, {'case': c, 'raised': raised}))
+            continue
+        if mode == 'strict' and not c['inside']:
+            if raised != 'partial':
+                out.append(('strict_mode_requires_full_containment', sig, {'case': c, 'raised': raised}))
+            continue
+        if raised:
+            out.append(('valid_cutout_raises', sig, {'case': c, 'raised': raised})); continue
+        exp_overlap = img[y0:y1, x0:x1]
+        if mode == 'trim':
+            exp = exp_overlap
+        else:
+            exp = np.full(shape, -1.0); exp[s0:s1, t0:t1] = exp_overlap
+        so = cut.slices_original; sc = cut.slices_cutout
+        got_so = [so[0].start, so[0].stop, so[1].start, so[1].stop]
+        if not np.array_equal(np.asarray(cut.data), exp):
+            out.append(('cutout_data_is_window_intersection', sig, {'case': c, 'got': np.asarray(cut.data).tolist()}))
+        elif got_so != [y0, y1, x0, x1]:
+            out.append(('slices_original_is_clipped_window', sig, {'case': c, 'got': got_so}))
+        elif mode == 'partial' and [sc[0].start, sc[0].stop, sc[1].start, sc[1].stop] != [s0, s1, t0, t1]:
+            out.append(('slices_cutout_locates_valid_pixels', sig, {'case': c, 'got': [sc[0].start, sc[0].stop, sc[1].start, sc[1].stop]}))
+    return out
+
+
 def psfphot_pairs(seed):
     """model / residual images of PSFPhotometry and IterativePSFPhotometry versus make_model_image of their own result tables,
     in both orders of include_localbkg"""
@@ -158,6 +207,16 @@ def run(ctx):
     ctx.evaluations += len(jobs); ctx.traces += len(jobs); ctx.exhaustive = True
     ctx.nontrivial += sum(1 for c in cases if len(c['rows']) >= 2 and any(w['y1'] - w['y0'] < r['mh'] or w['x1'] - w['x0'] < r['mw'] for w, r in zip(c['windows'], c['rows'])))
     ctx.sample({'kind': 'GEN case', 'rows': cases[len(cases) // 2]['rows'], 'image': cases[len(cases) // 2]['image']})
+    # the window rule itself (shared with C12 / C17): CutoutImage against Cutout.tla on the whole lattice
+    ctx.mc('Cutout', 'MC_Cutout.cfg', workers=8)
+    gc = ctx.tlc('Cutout', 'GEN_Cutout.cfg', part='GEN:Cutout', workers=1)
+    ccases = [r for r in gc.records if r.get('_tag') == 'GEN']
+    if q:
+        ccases = ccases[::3]
+    for vs in core.pmap(replay_cutout, ccases, chunksize=256):
+        for v in vs:
+            ctx.violation(*v)
+    ctx.evaluations += len(ccases); ctx.traces += len(ccases)
     pr = core.pmap(psfphot_pairs, [ctx.seed * 7 + i for i in range(2 if q else 8)], procs=8, chunksize=1)
     for vs in pr:
         for v in vs:
